@@ -127,8 +127,8 @@ def membership_gate(ctx):
     f = sm.func('XMLElement', '_convert_attribute_to_child', T.M_XMLELEMENT)
     g = cfg_of(f.node)
     evals = dom.nodes_calling(g, lambda c: isinstance(c.func, ast.Name) and c.func.id == 'eval')
-    gates = [n for n in g.stmt_nodes() if n.kind == 'test' and isinstance(n.ast, ast.Compare) and isinstance(n.ast.ops[0], ast.NotIn) and
-             unparse(n.ast.comparators[0]) == 'self.possible_children_names' and dom.branch_raises(g, n, 'T')]
+    gates = [n for n in g.stmt_nodes() if n.kind == 'test' and isinstance(n.ast, ast.Compare) and isinstance(n.ast.ops[0], ast.In) and
+             unparse(n.ast.comparators[0]) == 'self.possible_children_names' and dom.branch_raises(g, n, 'F')]       # canonical form of `name not in ..` [T]
     ok = bool(evals) and bool(gates) and all(g.path_avoiding(g.entry, e, avoid=gates) is None for e in evals)
     # every computation on the name parts (cap_first indexes [0]) also sits behind the gate
     caps = dom.nodes_calling(g, lambda c: isinstance(c.func, ast.Name) and c.func.id in ('cap_first', 'convert_to_xml_class_name'))
